@@ -1,0 +1,36 @@
+//go:build verif
+
+package openapi3filter
+
+// Contracts for parameter decoding (C05). Comment-only; read by /verif/engine (govc).
+
+// ---- primitives: the text is accepted exactly when it is a serialisation of the declared type,
+// and decodes to the value it denotes (int32 for format int32, else int64; float64; bool; the text
+// itself for strings)
+//@ spec primOK(raw string, format string, typ string) bool :=
+//@     typ == "integer" ? (format == "int32" ? parsesInt(raw, 0, 32) : parsesInt(raw, 0, 64))
+//@   : typ == "number" ? parsesFloat(raw, 64)
+//@   : typ == "boolean" ? parsesBool(raw)
+//@   : typ == "string"
+//@ func parsePrimitiveCase
+//@   assuming schema != nil && schema.Value != nil
+//@   modifies nothing
+//@   ensures [accepts-exactly-serialisations] (result.1 == nil) <==> primOK(raw, schema.Value.Format, typ)
+//@   ensures [integer-int32] result.1 == nil && typ == "integer" && schema.Value.Format == "int32" ==> typeof(result.0) == type int32 && result.0.(int32) == intValue(raw, 0)
+//@   ensures [integer] result.1 == nil && typ == "integer" && schema.Value.Format != "int32" ==> typeof(result.0) == type int64 && result.0.(int64) == intValue(raw, 0)
+//@   ensures [number] result.1 == nil && typ == "number" ==> typeof(result.0) == type float64 && same(result.0.(float64), floatValue(raw, 64))
+//@   ensures [boolean] result.1 == nil && typ == "boolean" ==> typeof(result.0) == type bool && result.0.(bool) == boolValue(raw)
+//@   ensures [string] typ == "string" ==> result.1 == nil && typeof(result.0) == type string && result.0.(string) == raw
+//@   ensures [error-carries-no-value] result.1 != nil ==> result.0 == nil
+//@   tag C05
+
+//@ spec tlist(t *openapi3.Types) []string := t == nil ? nil : *t
+// the declared types are tried in order; the empty text is "no value"
+//@ func parsePrimitive
+//@   assuming schema != nil && schema.Value != nil
+//@   modifies nothing
+//@   ensures [empty-is-absent] raw == "" ==> result.0 == nil && result.1 == nil
+//@   ensures [some-type-accepts] raw != "" && len(tlist(schema.Value.Type)) > 0 ==> ((result.1 == nil) <==> (exists i int :: 0 <= i && i < len(tlist(schema.Value.Type)) && primOK(raw, schema.Value.Format, tlist(schema.Value.Type)[i])))
+//@   loop 0 invariant #i > 0 ==> err != nil
+//@   loop 0 invariant forall j int :: 0 <= j && j < #i ==> !primOK(raw, schema.Value.Format, tlist(schema.Value.Type)[j])
+//@   tag C05
